@@ -200,6 +200,11 @@ func (sj *SemiJoin) optForward(mode Mode, req Require) (Cost, Cost, any) {
 // scanned, so reverse mode is only chosen when its total cost (including
 // deduplication) is lower than forward mode.
 func (sj *SemiJoin) optReverse(mode Mode, req Require) (Cost, Cost, any) {
+	// The result rows come from source1 and only match source2 on by,
+	// so source2 can only satisfy a requirement on by columns.
+	if !set.HasSubset(sj.by, req.cols) {
+		return impossible, impossible, nil
+	}
 	nrows2, _ := sj.source2.Nrows()
 	fixcost2, varcost2 := Optimize(sj.source2, mode, req)
 	if fixcost2+varcost2 >= impossible {
